@@ -13,6 +13,7 @@ import (
 	"strconv"
 	"strings"
 	"sync"
+	"sync/atomic"
 	"time"
 
 	f_note "github.com/transparency-dev/formats/note"
@@ -39,7 +40,7 @@ func (p *pathRec) RoundTrip(q *http.Request) (*http.Response, error) {
 	p.mu.Lock()
 	p.seen = append(p.seen, q.URL.Path)
 	p.mu.Unlock()
-	return &http.Response{StatusCode: 200, Body: io.NopCloser(strings.NewReader("x")), Request: q}, nil
+	return &http.Response{StatusCode: 200, Body: io.NopCloser(strings.NewReader("x")), ContentLength: 1, Request: q}, nil
 }
 
 // hashReader serves tlog stored-hash indexes from a reference tree.
@@ -53,6 +54,8 @@ func (h hashReader) ReadHashes(idx []int64) ([]tlog.Hash, error) {
 	}
 	return out, nil
 }
+
+var feedFailures atomic.Int64
 
 // stubSumDB serves exactly the size-N prefix of a tree in the SumDB layout.
 type stubSumDB struct {
@@ -82,11 +85,24 @@ func (s *stubSumDB) latest() []byte {
 func (s *stubSumDB) RoundTrip(q *http.Request) (*http.Response, error) {
 	p := q.URL.Path
 	mk := func(code int, b []byte) (*http.Response, error) {
-		return &http.Response{StatusCode: code, Status: strconv.Itoa(code) + " x", Body: io.NopCloser(bytes.NewReader(b)), Request: q}, nil
+		cl := int64(len(b))
+		if len(b) > 2048 {
+			cl = -1 // like net/http's server for handlers that do not set Content-Length: long bodies go out chunked
+		}
+		return &http.Response{StatusCode: code, Status: strconv.Itoa(code) + " x", Body: io.NopCloser(bytes.NewReader(b)), ContentLength: cl, Request: q}, nil
 	}
 	s.mu.Lock()
 	s.paths = append(s.paths, p)
+	rep := 0
+	for _, q := range s.paths {
+		if q == p {
+			rep++
+		}
+	}
 	s.mu.Unlock()
+	if rep > 4 && s.stop != nil {
+		s.stop() // the same path for the fifth time in one feed: a retry loop that cannot succeed - end it
+	}
 	if s.prefix != "" {
 		if !strings.HasPrefix(p, s.prefix+"/") {
 			s.mu.Lock()
@@ -188,7 +204,7 @@ func main() {
 	run.Exhaustive(false)
 	run.Units("pairs", int(N), 0, func(unit int64, r *rand.Rand) {
 		to := uint64(unit) + 1
-		for from := uint64(1); from < to; from++ {
+		for from := uint64(1); from < to && !run.Aborted(); from++ {
 			pair(run, unit, tree, key, from, to, from == to-1 && to%50 == 0)
 		}
 	})
@@ -339,6 +355,9 @@ func pairFlaky(run *ev.Run, unit int64, tree *reftree.Tree, key *refnote.SignKey
 	run.Distinct("nontrivial", fmt.Sprintf("pair/%d/%d", from, to))
 	detail := map[string]any{"from": from, "to": to, "err": fmt.Sprint(err), "requests": stub.paths, "not_found": stub.n404}
 	if err != nil || w.calls != 1 {
+		if feedFailures.Add(1) >= 12 {
+			run.Abort() // every further pair would only repeat the wait
+		}
 		run.Violate(fmt.Sprintf("feed_failed;404s=%v", stub.n404 > 0), fmt.Sprintf("%d -> %d: the feeder returned %v after %d Update calls (%d tile requests were outside the served tree)", from, to, err, w.calls, stub.n404), unit, detail)
 		return
 	}
